@@ -826,7 +826,23 @@ def sum_str_len_const(ex, st, func, args, dest_ty):
         return [(st, BV(z3.BitVecVal(len(unescape_bytes(a.text)), 64)))]
     return None
 
+def sum_int_from(ex, st, func, args, dest_ty):
+    """<T as From<S>>::from / <S as Into<T>>::into between machine integers (lossless widening), char from u8"""
+    m = re.match(r'^<(\w+) as From<(\w+)>>::from$', func) or None
+    if m: dst, src = m.group(1), m.group(2)
+    else:
+        m = re.match(r'^<(\w+) as Into<(\w+)>>::into$', func)
+        if not m: return None
+        src, dst = m.group(1), m.group(2)
+    W = dict(INT); W['char'] = (32, False)
+    if src not in W or dst not in W or not isinstance(args[0], BV): return None
+    (ws, ss), (wd, sd) = W[src], W[dst]
+    if wd < ws or args[0].t.size() != ws: return None
+    t = args[0].t if wd == ws else (z3.SignExt(wd - ws, args[0].t) if ss else z3.ZeroExt(wd - ws, args[0].t))
+    return [(st, BV(t, sd))]
+
 GENERIC = [
+    (r'^<\w+ as From<\w+>>::from$|^<\w+ as Into<\w+>>::into$', sum_int_from),
     (r'^<\w+ as Ord>::(min|max)$|^(std|core)::cmp::(min|max)::<\w+>$', sum_int_minmax),
     (r'^core::str::<impl str>::len$', sum_str_len_const),
     (r'^(std::option::)?Option::<.*>::(unwrap|expect)$|^(std::result::)?Result::<.*>::(unwrap|expect)$', sum_unwrap),
